@@ -291,10 +291,12 @@ def doGot (s : State) (t : Nat) (mv : Bool) : State :=
   { s with got := s.got ++ [(t, s.stored, mv)], movedOut := s.movedOut || mv,
            obs := upd s.obs t { o with pc := .idle, todo := .drop :: o.todo.tail } }
 
+/-- after `Ready()` reported: `readyTouch` goes on to `Touch()` if it was true -/
+def readyNext (o : Obs) (x : Word) : Obs :=
+  if x ≠ .list [] ∧ o.todo.head? = some .readyTouch then { o with pc := .touching } else nextOp o
+
 def doReady (s : State) (t : Nat) (x : Word) : State :=
-  let o := s.obs t
-  { s with readyObs := s.readyObs ++ [(x, s.stored.isSome)],
-           obs := upd s.obs t (if x ≠ .list [] ∧ o.todo.head? = some .readyTouch then { o with pc := .touching } else nextOp o) }
+  { s with readyObs := s.readyObs ++ [(x, s.stored.isSome)], obs := upd s.obs t (readyNext (s.obs t) x) }
 
 def doTouch (s : State) (t : Nat) : State :=
   { s with touchObs := s.touchObs ++ [s.stored], obs := upd s.obs t (nextOp (s.obs t)) }
